@@ -91,7 +91,7 @@ class Pruned(Exception):
 def run_ip(case, R):
     ops = [tuple(o) for o in case["ops"]]
     names = [o[0] for o in ops]
-    faulty = {"replay", "skip", "corrupt", "drop-response", "cancel", "timeout"}
+    faulty = {"replay", "skip", "corrupt", "drop-response", "cancel", "timeout", "reconnect-tape"}
     idx = [i for i, n in enumerate(names) if n in faulty]
     R.nt(bool(idx) and any(n in ("request", "deliver") for n in names[idx[0] + 1:]))
     for n in set(names):
@@ -188,6 +188,13 @@ def run_ip(case, R):
                     if conn is not None:
                         conn.close("fin")
                     await asyncio.sleep(2)
+                elif name == "reconnect-tape":
+                    # the next pair-verify is answered by a peer that only replays the first handshake it recorded
+                    once = [True]
+                    w.acc.verify_policy = lambda c: "tape" if once and not once.clear() else "ok"
+                    if conn is not None:
+                        conn.close("fin")
+                    await asyncio.sleep(2)
               except Pruned:
                 if not case.get("lenient"):
                     raise
@@ -235,14 +242,14 @@ def run_ip_case(case, R):
 
 
 ALPHA = [("request", 10), ("request", 2500), ("deliver", 5, 1024), ("deliver", 1500, 600), ("replay", 0), ("replay", 3), ("skip", 5, 1024, 0),
-         ("corrupt", 5, 1024, 7), ("event",), ("drop-response",), ("cancel",), ("timeout",), ("reconnect",)]
+         ("corrupt", 5, 1024, 7), ("event",), ("drop-response",), ("cancel",), ("timeout",), ("reconnect",), ("reconnect-tape",)]
 
 
 def enum_ip(tier):
     depth = 4 if tier == "quick" else 5
     for d in range(1, depth + 1):
         for seq in itertools.product(ALPHA, repeat=d):
-            if seq[0][0] not in ("request", "event", "replay", "reconnect"):
+            if seq[0][0] not in ("request", "event", "replay", "reconnect", "reconnect-tape"):
                 continue
             yield {"ops": [list(o) for o in seq]}
 
@@ -252,7 +259,7 @@ def ip_histories(draw):
     n = draw(st.integers(3, 40))
     ops = []
     for _ in range(n):
-        name = draw(st.sampled_from(["request", "request", "deliver", "deliver", "deliver", "replay", "skip", "corrupt", "event", "drop-response", "cancel", "timeout", "reconnect"]))
+        name = draw(st.sampled_from(["request", "request", "deliver", "deliver", "deliver", "replay", "skip", "corrupt", "event", "drop-response", "cancel", "timeout", "reconnect", "reconnect-tape"]))
         if name == "request":
             ops.append([name, draw(st.sampled_from([1, 10, 1000, 1024, 2500, 5000]))])
         elif name in ("deliver", "skip", "corrupt"):
@@ -265,7 +272,7 @@ def ip_histories(draw):
 
 
 LAYERS = [
-    Layer("ip-dfs", run_ip_case, enumerate=enum_ip, exhaustive=True, space="all event sequences over 13 events to depth 4 (quick) / 5 (thorough) that start with a request, event, replay or reconnect", min_nontrivial=100),
+    Layer("ip-dfs", run_ip_case, enumerate=enum_ip, exhaustive=True, space="all event sequences over 14 events to depth 4 (quick) / 5 (thorough) that start with a request, event, replay or reconnect", min_nontrivial=100),
     Layer("ip-generated", run_ip_case, strategy=ip_histories, n={"quick": 4000, "thorough": 60000}),
 ]
 from props.ble_layers import C06_LAYERS as _BLE  # noqa: E402
@@ -280,7 +287,7 @@ SPEC = Property(
     P, "fault_enumeration",
     rule=("per transport, histories over {request with one or several frames/fragments, deliver the next genuine response, replay an earlier "
           "genuine ciphertext, deliver a genuine message encrypted under a future counter, deliver a corrupted message, withhold a response, "
-          "cancel the in-flight request, let the timeout fire, reconnect, unsolicited event}; every AEAD call of the controller is recorded "
+          "cancel the in-flight request, let the timeout fire, reconnect, reconnect to a peer that replays the first recorded handshake, unsolicited event}; every AEAD call of the controller is recorded "
           "by wrappers rebound over the cipher classes (key, nonce, ciphertext, success). Bounded exhaustive DFS and generated histories. "
           "Non-trivial: a replay, skip, corruption, withheld response, cancel or timeout followed by a further send or delivery."),
     layers=LAYERS,
